@@ -1,6 +1,7 @@
 package rules
 
 import (
+	"fmt"
 	"go/token"
 	"go/types"
 	"os"
@@ -119,6 +120,39 @@ func c16(r *core.Run) {
 				nLim++
 				_, lim := callTo(core.Unwrap(c.Call.Args[0]), "io.LimitReader")
 				r.Check(lim, "C16.SIZE", core.FuncName(fn)+"#bounded-read", in.Pos(), "file content is read through io.LimitReader", "file content is read without a size bound")
+				// the cap is wide enough to SEE an oversized file: what is read is compared with a maximum afterwards,
+				// and the reader's limit lies above that maximum — a smaller limit cuts a file that passed the size
+				// test short without any error, and the functions behind the cut are silently not analysed
+				if lr, isLim := callTo(core.Unwrap(c.Call.Args[0]), "io.LimitReader"); isLim {
+					k, isK := core.ConstInt(core.Resolve(lr.Call.Args[1]))
+					var maxes []int64
+					core.InstrsOf(fn, func(in2 ssa.Instruction) {
+						b, ok := in2.(*ssa.BinOp)
+						if !ok || (b.Op != token.GTR && b.Op != token.GEQ) {
+							return
+						}
+						m, isM := core.ConstInt(b.Y)
+						if !isM {
+							return
+						}
+						// len(content) > max  or  info.Size() > max
+						if ln, isLen := isBuiltinCall(b.X, "len"); isLen {
+							if ex, isEx := ln.Call.Args[0].(*ssa.Extract); isEx && ex.Tuple == ssa.Value(c) {
+								maxes = append(maxes, m)
+							}
+						}
+						if cc, isCall := b.X.(*ssa.Call); isCall && cc.Call.IsInvoke() && cc.Call.Method.Name() == "Size" {
+							maxes = append(maxes, m)
+						}
+					})
+					okCap := isK && len(maxes) > 0
+					for _, m := range maxes {
+						if k <= m {
+							okCap = false
+						}
+					}
+					r.Check(okCap, "C16.SIZE", core.FuncName(fn)+"#read-cap-above-size-limit", in.Pos(), "the reader's limit lies above every size limit the file is tested against, so an oversized read is detected, never truncated", fmt.Sprintf("the reader's limit (%d) does not lie above the size limit(s) %v the file is tested against: a file that passes the size test is cut off at the reader's limit without an error — the code behind the cut is never analysed and nothing reports it", k, maxes))
+				}
 			}
 		})
 	}
@@ -454,6 +488,47 @@ func c16EnumRule(r *core.Run, rule string) {
 						}
 						r.Check(okG, rule, core.FuncName(fn)+"#member-skip", in.Pos(), "members, named types and methods reach the enumerator unless a kind or nil test fails", "a package member, named type or method is kept from the enumerator by "+gd+": the functions so exempted (e.g. the methods of generic types) are never fingerprinted, scanned or listed, and nothing reports it")
 					}
+				})
+				// the method loop visits every method: it counts from 0 in steps of 1 up to NumMethods()
+				core.InstrsOf(fn, func(in ssa.Instruction) {
+					b, ok := in.(*ssa.BinOp)
+					if !ok {
+						return
+					}
+					var ph *ssa.Phi
+					var boundOK bool
+					switch {
+					case b.Op == token.LSS:
+						ph, _ = b.X.(*ssa.Phi)
+						_, boundOK = callTo(b.Y, "(*go/types.Named).NumMethods")
+					case b.Op == token.GTR:
+						ph, _ = b.Y.(*ssa.Phi)
+						_, boundOK = callTo(b.X, "(*go/types.Named).NumMethods")
+					default:
+						if _, isNM := callTo(b.Y, "(*go/types.Named).NumMethods"); isNM {
+							if p2, isPhi := b.X.(*ssa.Phi); isPhi && (b.Op == token.LEQ || b.Op == token.NEQ || b.Op == token.GEQ) {
+								r.Fail(rule, core.FuncName(fn)+"#method-loop-complete", in.Pos(), "the method loop is bounded by "+b.Op.String()+" NumMethods(): not the half-open range [0, NumMethods())")
+								_ = p2
+							}
+						}
+						return
+					}
+					if ph == nil || !boundOK {
+						return
+					}
+					start, step := int64(-1), int64(0)
+					for _, e := range ph.Edges {
+						if k, isK := core.ConstInt(e); isK {
+							start = k
+							continue
+						}
+						if inc, isInc := e.(*ssa.BinOp); isInc && inc.Op == token.ADD && inc.X == ssa.Value(ph) {
+							if k, isK := core.ConstInt(inc.Y); isK {
+								step = k
+							}
+						}
+					}
+					r.Check(start == 0 && step == 1, rule, core.FuncName(fn)+"#method-loop-complete", in.Pos(), "the method loop runs over [0, NumMethods()) in steps of 1", fmt.Sprintf("the method loop starts at %d with step %d: some methods of every named type (and the closures inside them) are never fingerprinted, scanned or listed, and nothing reports it", start, step))
 				})
 				nSw++
 				r.Check(hasFn && hasTy && methods, rule, core.FuncName(fn)+"#member-kinds", fn.Pos(), "package members: functions and every method of named types are enumerated", "the member enumeration does not cover functions and all methods of named types")
